@@ -27,6 +27,10 @@ PROPS = ['C01', 'C02', 'C03', 'C05', 'C06', 'C07', 'C08', 'C09', 'C10', 'C11', '
 
 
 def sh(cmd, cwd=None, timeout=1800, env=None):
+    if env is None and cwd is not None:
+        # make sure `import nautilus` resolves to the tree in cwd even for `python script.py`
+        # (sys.path[0] is the script's directory then, not cwd)
+        env = dict(os.environ, PYTHONPATH=cwd + os.pathsep + os.environ.get('PYTHONPATH', ''))
     r = subprocess.run(cmd, cwd=cwd, shell=isinstance(cmd, str), capture_output=True, text=True,
                        timeout=timeout, env=env)
     return r.returncode, (r.stdout + r.stderr)
